@@ -445,9 +445,27 @@ def hardness_test(ck: Check, tpls) -> None:
     from moptipyapps.binpacking2d.instgen.hardness import Hardness
     small = [t for t in tpls if t.n <= 20 and t.W * t.H <= 10**4 and t.base >= 1]
     pick = ck.rng.sample(small, min(len(small), 3 if ck.quick else 12))
+    shared = Hardness(max_fes=24, n_runs=2)      # one objective object for ALL instances, as an optimiser uses it
+    shared_eh = None
+    fresh: dict = {}
     for t in pick:
         x = [ck.rng.uniform(-1, 1) for _ in range(2 * t.base + 4)]
         res, _ = impl_decode(t, x)
+        # "identical for repeated evaluations of the same instance" also when OTHER instances (other names) were
+        # evaluated in between on the same object: A, B, A, A, B against the value a fresh object gives
+        try:
+            for inst in (res, t.inst, res, res, t.inst):
+                key = (inst.name, tuple(tuple(map(int, r)) for r in inst))
+                if key not in fresh:
+                    fresh[key] = Hardness(max_fes=24, n_runs=2).evaluate(inst)
+                v = shared.evaluate(inst)
+                ck.count("hardness_shared_eval")
+                ck.spec(v == fresh[key], "hardness_repeat",
+                        f"Hardness.evaluate of instance '{inst.name}' on an object that evaluated other instances before = {v}, "
+                        f"a fresh object gives {fresh[key]}", {"template": t.name, "instance": inst.name,
+                                                               "items": [list(map(int, r)) for r in inst]})
+        except ValueError as e:
+            ck.spec(False, "hardness_raises", f"Hardness.evaluate raised {e!r}", {"template": t.name})
         for inst in (res, t.inst):
             case = {"template": t.name, "items": [list(map(int, r)) for r in inst]}
             try:
